@@ -237,6 +237,7 @@ def run_case(case: dict, ctx: dict) -> dict:
     regen_over_existing = False
     any_fault = False
     last_ref_files = []  # type: typing.List[str]
+    ev_digests = []  # type: typing.List[str]
     out = world.out_dir
 
     def violation(sig: str, detail: dict) -> None:
@@ -276,6 +277,7 @@ def run_case(case: dict, ctx: dict) -> dict:
             inv = world.invocation(opts, **plan)
             res = proc.run_invocation(inv)
             evaluations += 1
+            ev_digests.append(nnvg.event_digest(res))
             post = snapshot.snapshot(out, with_mtime=False)
             post_files = snapshot.files_of(post)
             bump("ops", "generate")
@@ -402,7 +404,7 @@ def run_case(case: dict, ctx: dict) -> dict:
     nontrivial = []
     if regen_over_existing or any_fault:
         nontrivial.append(hashlib.sha256("\n".join(trace_key).encode()).hexdigest()[:16])
-    digest = hashlib.sha256(("\n".join(trace_key) + "|" + "|".join(states)).encode()).hexdigest()[:16]
+    digest = hashlib.sha256(("\n".join(trace_key) + "|" + "|".join(ev_digests) + "|" + "|".join(sorted(v["signature"] for v in violations))).encode()).hexdigest()[:16]
     sample = {"ops": [_brief(o) for o in executed], "world": world_knobs, "n_dsdl_files": len(files)}
     counters["dsdl"] = {k: v for k, v in stats.items() if isinstance(v, int)}
     return {
